@@ -313,7 +313,7 @@ impl Prop for C01 {
     }
     fn cases(t: Tier) -> u64 {
         match t {
-            Tier::Quick => 36_000,
+            Tier::Quick => 100_000,
             Tier::Thorough => 1_000_000,
         }
     }
